@@ -128,7 +128,7 @@ func c05Atomic(rc *RuleCtx) {
 			}
 			bad := ""
 			for _, r := range returnsOf(f) {
-				if !instrReaches(m.in, r) {
+				if !instrReaches(m.in, r) || !feasiblyReaches(m.in, r, 20000) {
 					continue
 				}
 				mayFail := false
